@@ -104,4 +104,14 @@ var props = map[string]propDef{
 		Thorough:       budget{Runs: 20000, Chunk: 100, Wall: 40 * time.Minute, PerChunkGrace: 5 * time.Minute},
 		MinimiseBudget: 60 * time.Second,
 	},
+	"C02": {
+		Binary: "dsim-store", Harness: "C02", Level: "exploration",
+		Rule: "each run = 2-4 committer tasks (each: rebase+read root, put 1-3 unique chunks and a root chunk over them and the previous root, Commit(new, read root); 2-5 iterations) plus 0-2 reader tasks that open a fresh instance, read its root and walk its closure, under the seeded S1 scheduler. Mode shared: all tasks use one store object (journaling or file-manifest) through a wrapper that parks them before Root/Rebase/Put/Commit. Mode procs: every task owns a NomsBlockStore on one shared directory (file manifest + LOCK, real flock, fake clock for the lock time-out) and is parked at a per-run subset of file-operation classes (rename, remove, create, open, stat, fsync, readdir, read, write), i.e. inside manifest updates and table-file opens. The recorded history of (rebase+root, Commit, fresh-open root) is checked with porcupine against a compare-and-swap register in which a failed CAS changes nothing; every root a fresh instance shows must have all chunks written before its commit readable. One evaluation = one fresh-instance verification. Non-trivial = at least one context switch and one successful commit; distinct by executed-schedule hash.",
+		Assumptions: []string{"a commit that fails on a LOCK time-out is a definite failure; any other commit error makes the register check of that run inconclusive (counted)", "Commit may fail spuriously (stale cached root): the model allows a failed CAS at any time", "background conjoin is disabled in this harness (it is an explicit actor in C05)", "tasks are parked only where they hold no in-process lock another task needs (DESIGN §10a)"},
+		Real:        storeReal, Stub: append([]string{"goroutine scheduling at the listed seams (seeded S1 scheduler on synctest quiescence)"}, storeStub...), Persistence: "not used",
+		ExpectProbes:   []string{"commit_ok", "cas-contention", "context-switch", "reopen", "porcupine_ok", "clock-advance"},
+		Quick:          budget{Runs: 400, Chunk: 25, Wall: 150 * time.Second, PerChunkGrace: 120 * time.Second},
+		Thorough:       budget{Runs: 30000, Chunk: 100, Wall: 40 * time.Minute, PerChunkGrace: 5 * time.Minute},
+		MinimiseBudget: 60 * time.Second,
+	},
 }
